@@ -263,7 +263,30 @@ RUN_CELLS
  -time_step 10
 END
 """
-CORPUS = [("corpus:fluoride-iron", CORPUS_F), ("corpus:stale-v_m", CORPUS_V), ("corpus:model-reuse", """SOLUTION 1 case 39
+CORPUS_L = """SOLUTION 1 long formulas in name/value lists
+ pH 7
+ units mmol/kgw
+ Na 10
+ Cl 10 charge
+ Ca 1
+ C(4) 1
+KINETICS 1
+ Decay
+  -formula Ca0.165Al2.33Si3.67O10(OH)2 1
+  -m0 0.001
+  -parms 1e-5 0.5
+ -steps 10
+REACTION 1
+ K0.6Mg0.25Al2.3Si3.5O10(OH)2 1
+ Ca0.165Al2.33Si3.67O10(OH)2 0.5
+ 0.01 mmol
+END
+RUN_CELLS
+ -cells 1
+ -time_step 10
+END
+"""
+CORPUS = [("corpus:fluoride-iron", CORPUS_F), ("corpus:long-names", CORPUS_L), ("corpus:stale-v_m", CORPUS_V), ("corpus:model-reuse", """SOLUTION 1 case 39
  temp 10
  pH 8.79106
  pe -0.249658
@@ -443,7 +466,8 @@ def gen_case(rng, k):
             L.append("  -tol 1e-9")
             if rng.random() < 0.4:
                 L.append(" Decay")
-                L.append("  -formula NaCl 1")
+                # (long mineral formulas: the name/value rows of the dump then take the long-name branch of cxxNameDouble::dump_raw)
+                L.append("  -formula %s 1" % rng.choice(["NaCl", "NaCl", "Ca0.165Al2.33Si3.67O10(OH)2", "K0.6Mg0.25Al2.3Si3.5O10(OH)2"]))
                 L.append("  -m0 %s" % fmt(rng.uniform(0.0001, 0.001)))
                 L.append("  -parms %s %s" % (fmt(rng.uniform(1e-6, 1e-4)), fmt(rng.uniform(0, 1))))
             L.append(" -steps %s" % " ".join(fmt(rng.choice([10, 100, 1000])) for _ in range(rng.choice([1, 2, 7]))))
@@ -462,6 +486,8 @@ def gen_case(rng, k):
         L.append(" NaCl %s" % fmt(rng.uniform(0.5, 2)))
         if rng.random() < 0.4:
             L.append(" CaCO3 0.1")
+        if rng.random() < 0.3:
+            L.append(" %s 0.01" % rng.choice(["Ca0.165Al2.33Si3.67O10(OH)2", "K0.6Mg0.25Al2.3Si3.5O10(OH)2", "Na0.33Al2.33Si3.67O10(OH)2"]))
         if rng.random() < 0.5:
             L.append(" %s mmol in %d steps" % (fmt(rng.uniform(0.1, 5)), rng.choice([1, 2, 4])))
         else:
@@ -607,7 +633,22 @@ def rel_noise(ta, tb):
     return m
 
 
-def first_diff(ta, tb, tol=TOL, noise=None):
+def kinetics_floor(d1):
+    """{cell number: sum of the -tol (mol) of its kinetic reactants}: the error control of the rate integrator; results of a cell
+    with KINETICS are only defined up to it (a start state differing in the 15th digit takes other step sizes)"""
+    out = {}
+    for kw, n, lines in split_entities(d1):
+        if kw == "KINETICS_RAW":
+            t = 0.0
+            for ln in lines:
+                sp = ln.split()
+                if len(sp) == 2 and sp[0] == "-tol" and NUM_RE.match(sp[1]):
+                    t += float(sp[1])
+            out[n] = t
+    return out
+
+
+def first_diff(ta, tb, tol=TOL, noise=None, floors=None):
     """(row, column, a, b) of the first out-of-tolerance cell, or a string for structural differences, or None"""
     if len(ta) != len(tb):
         return "row count %d vs %d" % (len(ta), len(tb))
@@ -619,6 +660,8 @@ def first_diff(ta, tb, tol=TOL, noise=None):
             if isinstance(h, str) and h.startswith(("d_", "dk_")):
                 continue
             fl = 3.0 * noise.get((i, h), 0.0) if noise else 0.0
+            if floors:
+                fl += floors.get(ra.get("soln"), 0.0)
             if h in ("charge(eq)", "Alk(eq/kgw)") and isinstance(mu, float) and isinstance(ra[h], float) and isinstance(rb[h], float):
                 # sums with cancellation: relative to the ionic strength (the size of the terms), not to the remainder
                 if abs(ra[h] - rb[h]) <= tol * max(abs(ra[h]), abs(rb[h]), abs(mu)) + fl:
@@ -1037,6 +1080,7 @@ def run_round_trip(ctx, cases, static_defects, kw2cls, timeout_each=25):
                 ("does not return" if rbn.get("timeout") else "crashes"), rbn.get("stderr", "")[:500], "normal return")
         elif rbn.get("rcA") == 0 and "dumpA" in rbn:
             stats["copies"] = stats.get("copies", 0) + 1
+            c.bin_text_equal = rbn["dumpA"] == rbn["dumpB"]
             for tag, nm in (("bin", "dumpB"), ("ser", "dumpC")):
                 ta, tb = rbn["dumpA"], rbn[nm]
                 if tag == "ser":
@@ -1095,6 +1139,7 @@ def run_round_trip(ctx, cases, static_defects, kw2cls, timeout_each=25):
                         if rn > TOL:
                             stats["cases_exact_copy_beyond_1e-7"] = stats.get("cases_exact_copy_beyond_1e-7", 0) + 1
         noise = noise_table(c.bin_orig, c.bin_copy)
+        kfl = kinetics_floor(c.d1)
         rn_case = min(rel_noise(c.bin_orig, c.bin_copy), 100 * TOL) if (c.bin_orig and c.bin_copy and len(c.bin_orig) == len(c.bin_copy)) else 0.0
         # follow-up calculations on the text-restored state
         fo, fr = B.get(c.id + "/Fo") or {}, B.get(c.id + "/Fr") or {}
@@ -1119,10 +1164,10 @@ def run_round_trip(ctx, cases, static_defects, kw2cls, timeout_each=25):
             stats["followup_cells"] += len(to)
             if ref is not None and len(ref) == len(to):
                 # fresh instance + text  vs  fresh instance + exact copy: no history on either side, strict 1e-7
-                d = first_diff(ref, tr)
+                d = first_diff(ref, tr, floors=kfl)
             else:
                 # against the original instance: 1e-7 plus three times the measured irreproducibility of that cell
-                d = first_diff(to, tr, noise=noise)
+                d = first_diff(to, tr, noise=noise, floors=kfl)
             if isinstance(d, str):
                 add(c, "followup:%s:shape" % label, "follow-up RUN_CELLS differs between original and restored state (%s): %s" % (label, d),
                     d, "same table shape", {"followup": c.follow})
@@ -1175,7 +1220,7 @@ def run_round_trip(ctx, cases, static_defects, kw2cls, timeout_each=25):
                         (er.get("err") or "")[:600], "same results", {"modify": mtxt})
                 else:
                     teo = vlib.table_dicts(eo["tables"]["95"])
-                    d = first_diff(teo, vlib.table_dicts(er["tables"]["95"]), tol=TOL + 3 * rn_case)
+                    d = first_diff(teo, vlib.table_dicts(er["tables"]["95"]), tol=TOL + 3 * rn_case, floors=kfl)
                     if isinstance(d, str):
                         add(c, "modify-element:shape", "SOLUTION_MODIFY (element-named totals): %s" % d, d, "same table shape")
                     elif d:
@@ -1197,7 +1242,7 @@ def run_round_trip(ctx, cases, static_defects, kw2cls, timeout_each=25):
                     tmo = vlib.table_dicts(mo["tables"]["96"])
                     # (both runs happen in the instance that holds the history; allow three times the relative irreproducibility
                     # measured for this case between the original and its exact copy)
-                    d = first_diff(tmo, vlib.table_dicts(mr["tables"]["96"]), tol=TOL + 3 * rn_case)
+                    d = first_diff(tmo, vlib.table_dicts(mr["tables"]["96"]), tol=TOL + 3 * rn_case, floors=kfl)
                     if isinstance(d, str):
                         add(c, "modify:shape", "SOLUTION_MODIFY restore path: %s" % d, d, "same table shape")
                     elif d:
@@ -1226,6 +1271,15 @@ def run_round_trip(ctx, cases, static_defects, kw2cls, timeout_each=25):
                     "unrelated simulation the original instance agrees with the exact copy, so the engine's re-use of the previous model "
                     "(same_model/quick_setup) carries hidden state: " + desc,
                     {"cell": desc, "with_unrelated_simulation_in_between": "agrees with the exact copy"}, "relative difference <= 1e-7", {"followup": c.follow})
+            elif getattr(c, "bin_text_equal", False) and not isinstance(d, str):
+                # the StorageBin copy is a member-wise C++ copy and its RAW text equals the original's: the reactants are identical,
+                # so only state of the INSTANCE (outside the reactants) can make the results differ -- the same defect family
+                # (here the unrelated simulation before the follow-up does not remove it: the hidden state is carried from one
+                # cell's calculation to the next inside the follow-up run)
+                add(c, "instance:model-reuse",
+                    "identical reactants (member-wise copy, identical RAW text) give different follow-up results in the instance that computed "
+                    "them than in a fresh instance; state outside the reactants is carried between calculations: " + desc,
+                    {"cell": desc, "with_unrelated_simulation_in_between": "still differs"}, "relative difference <= 1e-7", {"followup": c.follow})
             else:
                 add(c, "followup:bin:%s" % (d if isinstance(d, str) else d[1]),
                     "follow-up RUN_CELLS differs grossly between the original and its exact in-memory copy: " + desc, str(d),
@@ -1551,6 +1605,61 @@ def merge_redox_corr(ctx, ops=None):
     ctx.extra["merge_redox_ops"] = {"ops": len(ops), "disagreements": nbad}
 
 
+# ----------------------------------------------------------------------------- name/value rows: model vs implementation
+LONG_NAMES = ["Ca0.165Al2.33Si3.67O10(OH)2", "K0.6Mg0.25Al2.3Si3.5O10(OH)2", "Mg5Al2Si3O10(OH)8", "Na0.33Al2.33Si3.67O10(OH)2",
+              "KAl3Si3O10(OH)2", "Ca", "C(4)", "Alkalinity", "Hfo_wOHSO4-2", "Goe_uniOH2Cl-0.5"]
+
+
+def nd_row_corr(ctx):
+    """what the real cxxNameDouble::dump_raw writes for names of every length 1..40 at every indentation 0..6 (and the long mineral
+    formulas of the databases) must be the string the Gallina writer [nd_row] gives (proved to tokenise back to [name; value]) and must
+    itself split into exactly (name, value)"""
+    rng = ctx.rng
+    cases = []
+    for ind in range(0, 7):
+        for ln in list(range(1, 41)):
+            nm = "".join(rng.choice("ABCabc0123456789().-_") for _ in range(ln))
+            if nm[0] in "-#":
+                nm = "X" + nm[1:]
+            cases.append((ind, nm, rng.randint(1, 99999)))
+        for nm in LONG_NAMES:
+            cases.append((ind, nm, rng.randint(1, 9)))
+    exe = vlib.build_harness("c10_nd", ["c10_nd.cpp"])
+    with vlib.scratch("c10row") as d:
+        f = os.path.join(d, "ops.tsv")
+        open(f, "w").write("".join("row:%d\t%d\t%s=%d\n" % (k, i, n, v) for k, (i, n, v) in enumerate(cases)))
+        rc, so, se = vlib.sh([exe, f], cwd=d, timeout=60)
+    impl = {}
+    for line in so.split("\n"):
+        if line.startswith("row:") and "\t" in line:
+            k, r = line.split("\t", 1)
+            impl[int(k[4:])] = r
+    v = ("From Coq Require Import String List.\nRequire Import IPV.C10.NdRow.\nOpen Scope string_scope.\n"
+         + "".join("Eval vm_compute in (%d, nd_row %d %s %s).\n" % (k, i, coq_str(n), coq_str(str(val))) for k, (i, n, val) in enumerate(cases)))
+    rc2, out = vlib.coq_eval(v, timeout=300)
+    model = {}
+    if rc2 == 0:
+        for m in re.finditer(r'=\s*\((\d+),\s*"((?:[^"]|"")*)"\)', out):
+            model[int(m.group(1))] = m.group(2).replace('""', '"')
+    if rc2 != 0 or len(model) != len(cases):
+        ctx.obligation("nd_row-model-evaluation", False, out[-1200:])
+        return
+    ctx.obligation("nd_row-model-evaluation", True)
+    nbad = 0
+    for k, (i, n, val) in enumerate(cases):
+        ctx.case({"row": n, "indent": i}, nontrivial=True)
+        got = impl.get(k)
+        ok = got is not None and got == model[k] + "|" and got[:-1].split() == [n, str(val)]
+        if not ok:
+            nbad += 1
+            if nbad <= 1:
+                ctx.violation("nd_row:writer-disagrees",
+                              "cxxNameDouble::dump_raw writes a name/value row that is not what its Gallina model writes (proved to tokenise back to "
+                              "[name; value] for names of any length): name %r (%d characters) at indentation %d" % (n, len(n), i),
+                              {"kind": "row", "indent": i, "name": n, "value": val, "observed": got, "expected": model[k] + "|"})
+    ctx.extra["nd_row_cases"] = {"rows": len(cases), "disagreements": nbad}
+
+
 # ----------------------------------------------------------------------------- run
 def build_cases(ctx):
     cases = []
@@ -1596,6 +1705,7 @@ def run(ctx):
     ctx.extra["classes"] = len(sc)
     ctx.extra["writer_items"] = sum(len(s["items"]) for s in sc)
     merge_redox_corr(ctx)
+    nd_row_corr(ctx)
     cases = build_cases(ctx)
     findings, stats = run_round_trip(ctx, cases, static_defects, kw2cls)
     ctx.extra["input_distribution"] = stats
@@ -1645,6 +1755,9 @@ def run(ctx):
 
 def replay(ctx):
     obj = json.load(open(ctx.replay))
+    if obj.get("kind") == "row":
+        nd_row_corr(ctx)
+        return
     if obj.get("kind") == "ops":
         merge_redox_corr(ctx, [([tuple(x) for x in obj["target"]], [tuple(x) for x in obj["source"]])])
         return
